@@ -4,6 +4,7 @@ go 1.23.0
 
 require (
 	github.com/fatedier/frp v0.0.0
+	github.com/fatedier/golib v0.5.1
 	github.com/samber/lo v1.47.0
 	golang.org/x/net v0.39.0
 )
@@ -14,7 +15,6 @@ require (
 	github.com/beorn7/perks v1.0.1 // indirect
 	github.com/cespare/xxhash/v2 v2.2.0 // indirect
 	github.com/coreos/go-oidc/v3 v3.14.1 // indirect
-	github.com/fatedier/golib v0.5.1 // indirect
 	github.com/go-jose/go-jose/v4 v4.0.5 // indirect
 	github.com/golang/snappy v0.0.4 // indirect
 	github.com/gorilla/mux v1.8.1 // indirect
